@@ -1023,3 +1023,14 @@ silent('C13', 'belt-gate-simplified',
        lambda p: M.replace_node(p, S_BELT, 'BeltStore._do_reserve_put', M.if_testing('self.accumulation_mode_indicator == True'),
                                 sub('(self.noaccumulation_mode_on==False and len(self.ready_items)==0) or (self.noaccumulation_mode_on==True and len(self.ready_items)==0)',
                                     'not self.ready_items')))
+
+# ---- C02.R6: mutator vocabulary of the holding / binding lists (seed C02-c)
+fire('C02', 'belt-ready-items-sorted-on-arrival (seed C02-c)', 'C02.R6', 'uncovered-mutation:ready_items',
+     lambda p: M.insert_after(p, S_BELT, 'BeltStore.move_to_ready_items', M.stmt_calling('self.ready_items.append'),
+                              'self.ready_items.sort(key=lambda i: i.conveyor_entry_time)'))
+fire('C02', 'buffer-cancel-rebuilds-ready-list', 'C02.R6', 'uncovered-mutation:ready_items',
+     lambda p: M.insert_before(p, S_BUF, 'BufferStore.reserve_get_cancel', lambda n: isinstance(n, ast.Return),
+                               'self.ready_items = [x for x in self.ready_items if x is not None]'))
+silent('C02', 'belt-sorts-a-copy-for-logging',
+       lambda p: M.insert_after(p, S_BELT, 'BeltStore.move_to_ready_items', M.stmt_calling('self.ready_items.append'),
+                                'print(sorted(self.ready_items, key=lambda i: i.conveyor_entry_time)[:1])'))
